@@ -322,6 +322,9 @@ pub fn run(report: &Report) {
     sweep(report, &[0, 1, 2, 3], if q { 7 } else { 9 }, "4 weights");
     sweep(report, &[1, 1, 2], if q { 8 } else { 10 }, "heavily tied weights");
     specials(report);
+    super::pyfront::sweep(report, "symbol", if q { 3 } else { 4 },
+        "Python EncoderHuffmanTree / DecoderHuffmanTree from every weight vector up to the listed length over 9 weights (incl. negative, NaN, inf: refusal or a complete code) as f32 and f64: Kraft sum, optimal cost, stack/queue agreement on codeword lengths",
+        &["Huffman"], &[]);
 }
 
 pub fn replay(_case: &serde_json::Value) -> Result<String, String> {
